@@ -1096,24 +1096,8 @@ func (m *Model) stepHash(c *cand, alive bool, op Op, t int64) []out {
 	case "hdel":
 		if !alive {
 			outs := one(c, wI(0))
-			if c.present && !m.LD {
-				// known finding: HDEL on an expired hash removes and counts the
-				// fields of the dead generation
-				f := c.clone()
-				n := int64(0)
-				for _, x := range a {
-					if _, ok := f.m[x]; ok {
-						delete(f.m, x)
-						n++
-					}
-				}
-				if n > 0 {
-					if len(f.m) == 0 {
-						f.wipe(false)
-					}
-					outs = append(outs, out{c: f, w: wI(n), via: "hdel-on-expired-hash-counts-old-fields"})
-				}
-			}
+			// (HDEL removing and counting fields of the dead generation was a
+			// recorded finding; repaired in /repo fbca9db)
 			return outs
 		}
 		n := int64(0)
